@@ -125,6 +125,8 @@ Hint(c) ==
     IN IF ~c.exact /\ \E r \in runners :
               LET lim == LimitMs(c.run[r].decl, c.mult) IN lim >= 0 /\ (c.run[r].dur - lim) \in -5000..5000
             THEN "RacyInput"       \* the harness must not generate such runs for real-time executions
+       ELSE IF \E i \in 1..Len(c.ev) : c.ev[i].r \notin runners
+            THEN "UnselectedTestRan"
        ELSE IF \E r \in runners : Cardinality(EvIdx(c, "S", r)) > 1 \/ Cardinality(recs(r)) > 1
             THEN "AtMostOnce"
        ELSE IF \E i \in 1..Len(c.rec) : c.rec[i].r \notin runners
